@@ -344,7 +344,8 @@ def ext_sorted(e, args, kw, node, st):
     lt0 = to_z3(_spec_call(e, "res_lt", [ow[0], oq[0]], st))
     lt1 = to_z3(_spec_call(e, "res_lt", [ow[1], oq[1]], st))
     st.assume(z3.ForAll([q, w], z3.Implies(z3.And(q >= 0, q < w, w < n),
-                                           z3.And(z3.Not(lt0), z3.Implies(to_z3(ow[0].ident) == to_z3(oq[0].ident), z3.Not(lt1))))))
+                                           z3.And(z3.Not(lt0), z3.Implies(to_z3(ow[0].ident) == to_z3(oq[0].ident), z3.Not(lt1)))),
+                        patterns=[z3.MultiPattern(to_z3(oq[0].ident), to_z3(ow[0].ident))]))
     e.last_enum = out  # lets the loop over the sorted list name it (loop option "seq")
     return out
 
@@ -551,13 +552,13 @@ class find_stackings_c:
               "pairs": "list[tuple[Residue3D,Residue3D,str]]", "stackings": "list[rec[Stacking]]"}
     requires = [
         # distinct participating residues have distinct base centroids (the centroid-keyed dictionary is lossy otherwise)
-        f"forall(lambda a, b: implies(0 <= a and a < b and b < {_N} and {_EL('a')} and {_EL('b')}, cen({_S}[a]) != cen({_S}[b])))",
+        f"forall(lambda a, b: implies(0 <= a and a < b and b < {_N} and {_EL('a')} and {_EL('b')}, cen({_S}[a]) != cen({_S}[b])), pats=[['ident({_S}[a])', 'ident({_S}[b])']])",
         # ... and distinct identifiers
         f"forall(lambda a, b: implies(0 <= a and a < b and b < {_N} and {_EL('a')} and {_EL('b')}, "
-        f"not ({_S}[a].label == {_S}[b].label and {_S}[a].auth == {_S}[b].auth)))",
+        f"not ({_S}[a].label == {_S}[b].label and {_S}[a].auth == {_S}[b].auth)), pats=[['ident({_S}[a])', 'ident({_S}[b])']])",
         # an existing base normal is a non-zero vector (tertiary.py returns a unit vector; NaN for collinear atoms is outside A-real)
         f"forall(lambda a: implies(0 <= a and a < {_N} and not is_none({_S}[a].base_normal_vector), "
-        f"dot3(some({_S}[a].base_normal_vector), some({_S}[a].base_normal_vector)) > 0))",
+        f"dot3(some({_S}[a].base_normal_vector), some({_S}[a].base_normal_vector)) > 0), pats=['ident({_S}[a])'])",
     ]
     ghost_entry = ["use degrees_monotone()"]
     ensures = [
@@ -581,9 +582,9 @@ class find_stackings_c:
         0: {"index": "p", "inv": [
             "0 <= len(coordinates) and len(SRC0) == len(coordinates) and len(POS0) == p",
             f"forall(lambda k: implies(0 <= k and k < len(coordinates), 0 <= SRC0[k] and SRC0[k] < p and POS0[SRC0[k]] == k and {_EL('SRC0[k]')} "
-            f"and coordinates[k] == cen({_S}[SRC0[k]]) and coordinates[k] in coordinates_residue_map and {_RM('k')} == {_S}[SRC0[k]]))",
-            f"forall(lambda a: implies(0 <= a and a < p, ite({_EL('a')}, 0 <= POS0[a] and POS0[a] < len(coordinates) and SRC0[POS0[a]] == a, POS0[a] == 0 - 1)))",
-            "forall(lambda k, w: implies(0 <= k and k < w and w < len(coordinates), SRC0[k] < SRC0[w]))",
+            f"and coordinates[k] == cen({_S}[SRC0[k]]) and coordinates[k] in coordinates_residue_map and {_RM('k')} == {_S}[SRC0[k]]), pats=['SRC0[k]', 'coordinates[k][0]'])",
+            f"forall(lambda a: implies(0 <= a and a < p, ite({_EL('a')}, 0 <= POS0[a] and POS0[a] < len(coordinates) and SRC0[POS0[a]] == a, POS0[a] == 0 - 1)), pats=['POS0[a]'])",
+            "forall(lambda k, w: implies(0 <= k and k < w and w < len(coordinates), SRC0[k] < SRC0[w]), pats=[['SRC0[k]', 'SRC0[w]']])",
         ]},
         1: {"index": "kk", "inv": [
             "len(xs) == cntp(residue, kk) and len(ys) == cntp(residue, kk) and len(zs) == cntp(residue, kk)",
@@ -592,14 +593,14 @@ class find_stackings_c:
         2: {"index": "t", "seq": "EN", "inv": [
             "0 <= len(pairs) and len(SRC2) == len(pairs) and len(POS2) == t",
             f"forall(lambda m: implies(0 <= m and m < len(pairs), 0 <= SRC2[m] and SRC2[m] < t and POS2[SRC2[m]] == m "
-            f"and stk({_RI}, {_RJ}, EPS) and pair_loose(pairs[m], {_RI}, {_RJ})))",
+            f"and stk({_RI}, {_RJ}, EPS) and pair_loose(pairs[m], {_RI}, {_RJ})), pats=['SRC2[m]', 'ident(pairs[m][0])'])",
             f"forall(lambda u: implies(0 <= u and u < t, (POS2[u] == 0 - 1 or (0 <= POS2[u] and POS2[u] < len(pairs) and SRC2[POS2[u]] == u)) "
-            f"and implies(stk({_UI}, {_UJ}, 0 - EPS), 0 <= POS2[u] and pair_tight(pairs[POS2[u]], {_UI}, {_UJ}))))",
-            "forall(lambda m, w: implies(0 <= m and m < w and w < len(pairs), SRC2[m] < SRC2[w]))",
+            f"and implies(stk({_UI}, {_UJ}, 0 - EPS), 0 <= POS2[u] and pair_tight(pairs[POS2[u]], {_UI}, {_UJ}))), pats=['POS2[u]'])",
+            "forall(lambda m, w: implies(0 <= m and m < w and w < len(pairs), SRC2[m] < SRC2[w]), pats=[['SRC2[m]', 'SRC2[w]']])",
         ]},
         3: {"index": "q3", "seq": "SP", "inv": [
             "len(stackings) == q3",
-            "forall(lambda q: implies(0 <= q and q < q3, rec_of(stackings[q], SP[q])))",
+            "forall(lambda q: implies(0 <= q and q < q3, rec_of(stackings[q], SP[q])), pats=['stackings[q].topology', 'ident(SP[q][0])'])",
         ]},
     }
     ghost = [
@@ -622,8 +623,8 @@ class find_stackings_c:
         {"when": "after", "at": "if len(xs) > 0", "label": "pos0", "do": ["let POS0 = snoc(POS0, ite(len(xs) > 0, len(coordinates) - 1, 0 - 1))"]},
         {"when": "before", "at": "kdtree =", "label": "centroid-table",
          "do": [f"assert forall(lambda k: implies(0 <= k and k < len(coordinates), coordinates[k] == cen({_RM('k')}) and implies(not is_none({_RM('k')}.base_normal_vector), "
-                f"dot3(some({_RM('k')}.base_normal_vector), some({_RM('k')}.base_normal_vector)) > 0)))",
-                f"assert forall(lambda k, w: implies(0 <= k and k < w and w < len(coordinates), {_RM('k')} != {_RM('w')} and coordinates[k] != coordinates[w]))"]},
+                f"dot3(some({_RM('k')}.base_normal_vector), some({_RM('k')}.base_normal_vector)) > 0)), pats=['coordinates[k][0]'])",
+                f"assert forall(lambda k, w: implies(0 <= k and k < w and w < len(coordinates), {_RM('k')} != {_RM('w')} and coordinates[k] != coordinates[w]), pats=[['coordinates[k][0]', 'coordinates[w][0]']])"]},
         {"when": "after", "at": "pairs = []", "label": "ghost-init2", "do": ["let SRC2 = empty('list[int]')", "let POS2 = empty('list[int]')"]},
         {"when": "after", "at": "residue_j =", "label": "pair-of-step",
          "do": [f"assert 0 <= i and i < j and j < len(coordinates) and residue_i == {_RM('i')} and residue_j == {_RM('j')}"]},
